@@ -45,6 +45,9 @@ class Compiler:
     def __init__(self, context):
         self.context = context
         self.table = context.tables.get('postings')
+        # Whether a SELECT is valid where the compilation stands: as the
+        # statement itself, in a FROM clause, and as right operand of IN.
+        self.subquery = True
 
     def compile(self, query, parameters=None):
         """Compile an AST into an executable statement."""
@@ -82,6 +85,9 @@ class Compiler:
 
     @_compile.register
     def _select(self, node: ast.Select):
+        if not self.subquery:
+            raise CompilationError('subquery not supported in this context', node)
+        self.subquery = False
         # A nested SELECT must not replace the table of the enclosing query.
         table = self.table
         try:
@@ -154,7 +160,11 @@ class Compiler:
 
         # Subquery.
         if isinstance(node, ast.Select):
-            self.table = SubqueryTable(self._compile(node))
+            self.subquery = True
+            subquery = self._compile(node)
+            if isinstance(subquery, EvalPivot):
+                raise CompilationError('PIVOT BY not supported in subquery', node.pivot_by)
+            self.table = SubqueryTable(subquery)
             return None
 
         # Table reference.
@@ -589,8 +599,11 @@ class Compiler:
     @_compile.register(ast.NotIn)
     def _inop(self, node: Union[ast.In, ast.NotIn]):
         left = self._compile(node.left)
+        self.subquery = isinstance(node.right, ast.Select)
         right = self._compile(node.right)
 
+        if isinstance(right, EvalPivot):
+            raise CompilationError('PIVOT BY not supported in subquery', node.right.pivot_by)
         if isinstance(right, EvalQuery):
             if len(right.columns) != 1:
                 raise CompilationError('subquery has too many columns', node.right)
@@ -670,6 +683,7 @@ class Compiler:
 
     @_compile.register
     def _print(self, node: ast.Print):
+        self.subquery = False
         self.table = self.context.tables.get('entries')
         expr = self._compile_from(node.from_clause)
         return EvalPrint(self.table, expr)
